@@ -195,6 +195,32 @@ def rule_fit_to_data(prog, rep):
     m = prog.modules.get(DF)
     fn = m.functions.get("fit_to_data") if m else None
     if fn is not None:
+        # first choice: the loop evaluated on every strict ordering of up to five scripted validation losses, for
+        # max_patience 0 / 1 / 2 and both values of return_best (fitgrid)
+        from . import fitgrid
+        res = fitgrid.decide_data(prog)
+        if res is not None:
+            site = f"{m.relpath}:{fn.lineno}"
+            if res[0] == "holds":
+                how = (f"by partial evaluation on {res[1]} cases (every strict ordering of 0..5 validation losses x max_patience "
+                       f"0,1,2 x return_best): trains each epoch from the current parameters on the training split, validates "
+                       f"the post-training parameters on the validation split, stops at the first epoch at which more than "
+                       f"max_patience epochs have passed since the best and never earlier, one train and one validation record "
+                       f"per epoch run, returns the parameters of the best epoch or the last ones")
+                for R, keys in (("C16.count", ("fit_to_data:one-train-and-one-val-record-per-epoch", "fit_to_data:records-unconditional",
+                                               "fit_to_data:max_patience-reaches-the-loop-as-passed",
+                                               "fit_to_data:max_epochs-reaches-the-loop-as-passed",
+                                               "fit_to_data:return_best-reaches-the-loop-as-passed")),
+                                ("C16.stop", ("fit_to_data:break-iff-not-best-and-fruitless>max_patience", "fit_to_data:single-exit")),
+                                ("C16.version", ("fit_to_data:best-iff-latest==min(whole-record)",
+                                                 "fit_to_data:best-params==params-the-validation-loss-was-evaluated-at")),
+                                ("C16.select", ("fit_to_data:returned",))):
+                    for i_, k2 in enumerate(keys):
+                        rep.holds(R, site, k2, how, nontrivial=(i_ == 0))
+            else:
+                rep.violated(f"C16.{res[1]}", site, "fit_to_data:evaluated", res[2])
+            return
+    if fn is not None:
         from .loops import dealias_container_members
         fn = dealias_container_members(fn)
     if fn is None:
@@ -325,6 +351,27 @@ def rule_variational(prog, rep):
         rep.undecided("C16.count", "-", "fit_to_variational_target", "function vanished")
         return
     site = f"{m.relpath}:{fn.lineno}"
+    # first choice: the loop evaluated on every strict ordering of up to five scripted losses (fitgrid)
+    from . import fitgrid
+    res = fitgrid.decide_variational(prog)
+    if res is not None:
+        if res[0] == "holds":
+            how = (f"by partial evaluation on {res[1]} cases (every strict ordering of 0..5 losses x return_best): one step and "
+                   f"one record per requested step, each step from the current parameters / optimiser state, returns the "
+                   f"parameters the minimum recorded loss was evaluated at, or the last ones")
+            for R, keys in (("C16.count", ("variational:one-iteration-per-step", "variational:no-early-exit",
+                                           "variational:initial-state", "variational:one-record-per-step",
+                                           "variational:exactly-one-update-per-step", "variational:record==loss-of-this-step",
+                                           "fit_to_variational_target:steps-reaches-the-loop-as-passed",
+                                           "fit_to_variational_target:return_best-reaches-the-loop-as-passed")),
+                            ("C16.version", ("variational:best-iff-loss-is-minimum-of-record",
+                                             "variational:best-params==params-the-loss-was-evaluated-at")),
+                            ("C16.select", ("fit_to_variational_target:returned",))):
+                for i_, k2 in enumerate(keys):
+                    rep.holds(R, site, k2, how, nontrivial=(i_ == 0))
+        else:
+            rep.violated(f"C16.{res[1]}", site, "fit_to_variational_target:evaluated", res[2])
+        return
     from .loops import scalarise_record_state
     fn = scalarise_record_state(m, fn)
     body = body_without_docstring(fn)
